@@ -29,6 +29,47 @@ const (
 func xa(s string) string { var sb strings.Builder; escAttr(&sb, s); return sb.String() }
 func xt(s string) string { var sb strings.Builder; escText(&sb, s); return sb.String() }
 
+// xtf renders element text in one of the lexical forms XML offers for the same character data (all of them are
+// the same string to a conformant receiver): plain, a CDATA section, numeric character references, text interrupted
+// by a comment, a CDATA section followed by plain text.
+func xtf(s string, form int) string {
+	rs := []rune(s)
+	switch form {
+	case 1:
+		if !strings.Contains(s, "]]>") && s != "" {
+			return "<![CDATA[" + s + "]]>"
+		}
+	case 2:
+		var sb strings.Builder
+		for i, r := range rs {
+			if r == ':' || r == '/' && i%2 == 0 || r > 0x7e || r == '@' {
+				if i%3 == 0 {
+					fmt.Fprintf(&sb, "&#%d;", r)
+				} else {
+					fmt.Fprintf(&sb, "&#x%X;", r)
+				}
+				continue
+			}
+			sb.WriteString(xt(string(r)))
+		}
+		return sb.String()
+	case 3:
+		if len(rs) >= 2 {
+			h := len(rs) / 2
+			return xt(string(rs[:h])) + "<!-- split -->" + xt(string(rs[h:]))
+		}
+	case 4:
+		if len(rs) >= 2 && !strings.Contains(s, "]]>") {
+			h := len(rs) / 3
+			if h == 0 {
+				h = 1
+			}
+			return "<![CDATA[" + string(rs[:h]) + "]]>" + xt(string(rs[h:]))
+		}
+	}
+	return xt(s)
+}
+
 // BuildSPMetadata renders the SP's EntityDescriptor.
 func BuildSPMetadata(c *SPCfg) string {
 	mdp, dsp := "md:", "ds:"
@@ -249,7 +290,7 @@ func buildAuthnRequestXML(f *reqFields, st *Style) string {
 		if st.Optional&optIssuerFormat != 0 {
 			fa = ` Format="urn:oasis:names:tc:SAML:2.0:nameid-format:entity"`
 		}
-		sb.WriteString(nl + in + "<" + ns.a + "Issuer" + ns.ad() + fa + ">" + xt(f.Issuer) + "</" + ns.a + "Issuer>")
+		sb.WriteString(nl + in + "<" + ns.a + "Issuer" + ns.ad() + fa + ">" + xtf(f.Issuer, st.TextForm) + "</" + ns.a + "Issuer>")
 	}
 	sb.WriteString(sigMarker)
 	if st.Optional&optExtensions != 0 {
@@ -327,11 +368,11 @@ func buildLogoutRequestXML(f *logoutFields, st *Style) string {
 	}
 	sb.WriteString("<" + ns.p + "LogoutRequest" + ns.rootDecl + renderAttrs(permute(attrs, st.AttrOrder)) + ">")
 	if !f.IssuerAbsent {
-		sb.WriteString(nl + in + "<" + ns.a + "Issuer" + ns.ad() + ">" + xt(f.Issuer) + "</" + ns.a + "Issuer>")
+		sb.WriteString(nl + in + "<" + ns.a + "Issuer" + ns.ad() + ">" + xtf(f.Issuer, st.TextForm) + "</" + ns.a + "Issuer>")
 	}
 	sb.WriteString(sigMarker)
 	if !f.NoNameID {
-		sb.WriteString(nl + in + "<" + ns.a + "NameID" + ns.ad() + ` Format="urn:oasis:names:tc:SAML:1.1:nameid-format:emailAddress">` + xt(f.NameID) + "</" + ns.a + "NameID>")
+		sb.WriteString(nl + in + "<" + ns.a + "NameID" + ns.ad() + ` Format="urn:oasis:names:tc:SAML:1.1:nameid-format:emailAddress">` + xtf(f.NameID, st.TextForm) + "</" + ns.a + "NameID>")
 	}
 	for _, si := range f.SessionIndex {
 		sb.WriteString(nl + in + "<" + ns.p + "SessionIndex>" + xt(si) + "</" + ns.p + "SessionIndex>")
@@ -368,13 +409,13 @@ func buildAttributeQueryXML(f *attrQueryFields, st *Style) (envelopeOpen, query,
 	var sb strings.Builder
 	sb.WriteString("<" + ns.p + "AttributeQuery" + ns.rootDecl + renderAttrs(permute(attrs, st.AttrOrder)) + ">")
 	if !f.IssuerAbsent {
-		sb.WriteString(nl + in + "<" + ns.a + "Issuer" + ns.ad() + ">" + xt(f.Issuer) + "</" + ns.a + "Issuer>")
+		sb.WriteString(nl + in + "<" + ns.a + "Issuer" + ns.ad() + ">" + xtf(f.Issuer, st.TextForm) + "</" + ns.a + "Issuer>")
 	}
 	sb.WriteString(sigMarker)
 	if !f.NoSubject {
 		sb.WriteString(nl + in + "<" + ns.a + "Subject" + ns.ad() + ">")
 		if !f.NoNameID {
-			sb.WriteString("<" + ns.a + `NameID Format="urn:oasis:names:tc:SAML:1.1:nameid-format:emailAddress">` + xt(f.Subject) + "</" + ns.a + "NameID>")
+			sb.WriteString("<" + ns.a + `NameID Format="urn:oasis:names:tc:SAML:1.1:nameid-format:emailAddress">` + xtf(f.Subject, st.TextForm) + "</" + ns.a + "NameID>")
 		}
 		sb.WriteString("</" + ns.a + "Subject>")
 	}
@@ -934,7 +975,16 @@ func (w *World) encodeFrontChannel(t *Task, m *MsgSpec, sp *SPNode, s *Sent, xml
 		doc = w.tamperXML(m, sp, s, doc)
 		s.XML = doc
 		form := url.Values{}
-		form.Set("SAMLRequest", base64.StdEncoding.EncodeToString([]byte(doc)))
+		b64 := base64.StdEncoding.EncodeToString([]byte(doc))
+		switch m.Style.B64Lines {
+		case 1:
+			b64 = strings.ReplaceAll(wrapAt(b64, 76), "\n", "\r\n")
+			w.probe("post_base64_with_line_breaks")
+		case 2:
+			b64 = wrapAt(b64, 64)
+			w.probe("post_base64_with_line_breaks")
+		}
+		form.Set("SAMLRequest", b64)
 		if s.HasRelay {
 			form.Set("RelayState", s.Relay)
 		}
@@ -949,6 +999,50 @@ func (w *World) encodeFrontChannel(t *Task, m *MsgSpec, sp *SPNode, s *Sent, xml
 		s.Params = form
 		if m.Style.BodyAndURL {
 			s.RawQuery = "utm_source=portal&lang=en"
+			w.probe("post_with_unrelated_query_parameters")
+		}
+		for _, tp := range m.Tamper {
+			if tp.Op != "query_shadow" {
+				continue
+			}
+			// the URL of the POST carries parameters of its own that contradict the form body: another (unsigned) message under
+			// another ID naming the attacker's consumer URL, another RelayState, or signature parameters
+			var q []string
+			if mod(tp.A, 4) != 3 {
+				evil := doc
+				if root, err := ParseXML([]byte(doc)); err == nil {
+					for _, sg := range root.Childs(NSDS, "Signature") {
+						removeChild(root, sg)
+					}
+					hasACS := false
+					for i := range root.Attrs {
+						switch root.Attrs[i].Local {
+						case "ID":
+							root.Attrs[i].Value = "_evil" + root.Attrs[i].Value
+						case "AssertionConsumerServiceURL":
+							root.Attrs[i].Value, hasACS = "https://evil.example/acs", true
+						}
+					}
+					if !hasACS && kind == EPSSO {
+						root.Attrs = append(root.Attrs, XAttr{Local: "AssertionConsumerServiceURL", Value: "https://evil.example/acs"})
+					}
+					evil = serialize(root)
+				}
+				if mod(tp.B, 2) == 0 {
+					q = append(q, "SAMLRequest="+pctEncode(base64.StdEncoding.EncodeToString([]byte(evil)), 0))
+				} else {
+					q = append(q, "SAMLRequest="+pctEncode(base64.StdEncoding.EncodeToString(deflateRaw([]byte(evil), 9)), 0))
+				}
+			}
+			if mod(tp.A, 4) != 0 {
+				q = append(q, "RelayState="+pctEncode("https://evil.example/landing", 0))
+			}
+			if mod(tp.A, 4) == 2 {
+				q = append(q, "SigAlg="+pctEncode(AlgRSASHA256, 0), "Signature="+pctEncode(base64.StdEncoding.EncodeToString([]byte("forged signature value")), 0))
+			}
+			s.RawQuery = strings.Join(q, "&")
+			w.notConformant(s, "tampered")
+			w.fire("tamper_query_shadow")
 		}
 	default: // redirect
 		doc := strings.Replace(xmlText, sigMarker, "", 1)
